@@ -18,6 +18,19 @@ ENGINE_EXC = (PathAbort, EngineLimit, EngineFault)
 NAMES = ["Aidon_frame", "Kaifa_frame", "Kamstrup_frame", "P1", "Aidon_notification_body", "Kaifa_notification_body", "Kamstrup_notification_body"]
 
 
+def run_entry(d, via, common, hdlc, dlde):
+    if via == "payload":
+        return d.decode_message_payload(b"x")
+    if via == "dlms":
+        return d.decode_message(common.DlmsMessage(b"xxxxxx"))
+    if via == "hdlc":
+        fr = hdlc.HdlcFrame()
+        for o in bytes.fromhex("a00a0321137a24e67e7e")[:10]:
+            fr.append(o)
+        return d.decode_message(fr) if fr.payload else None
+    return d.decode_message(dlde.DataReadout(b"/LGF5E360\r\n1-0:1.8.0(1*kWh)\r\n!\r\n"))
+
+
 def lemma_path(via):
     def path(eng, ctx):
         import han.autodecoder as AD, han.dlde as dlde, han.common as common, han.hdlc as hdlc
@@ -26,13 +39,17 @@ def lemma_path(via):
         names = [n for n, _ in orig]
         acc = [SBool(z3.Bool(f"acc{i}")) for i in range(len(names))]
         kind = [SBool(z3.Bool(f"verr{i}")) for i in range(len(names))]
+        empty = [SBool(z3.Bool(f"empty{i}")) for i in range(len(names))]
         calls = []
+
+        def result_of(i):
+            return {} if bool(empty[i]) else {"decoder": i}          # an accepting decoder may legitimately return an empty dictionary
 
         def mk(i):
             def dec(payload):
                 calls.append(i)
                 if acc[i]:
-                    return {"decoder": i}
+                    return result_of(i)
                 raise (ValueError("no") if kind[i] else construct.ConstructError("no"))
             return dec
         try:
@@ -45,19 +62,17 @@ def lemma_path(via):
             eng.add(z3.And(pv >= -1, pv <= len(names) - 1))
             prev = concretize(SInt(pv))
             d._AutoDecoder__previous_success = None if prev < 0 else prev
-            if via == "payload":
-                r = d.decode_message_payload(b"x")
-            elif via == "dlms":
-                r = d.decode_message(common.DlmsMessage(b"xxxxxx"))
-            elif via == "hdlc":
-                fr = hdlc.HdlcFrame()
-                for o in bytes.fromhex("a00a0321137a24e67e7e")[:10]:
-                    fr.append(o)
-                r = d.decode_message(fr) if fr.payload else None
-            else:
-                r = d.decode_message(dlde.DataReadout(b"/LGF5E360\r\n1-0:1.8.0(1*kWh)\r\n!\r\n"))
-            w = {"sub": "lemma", "prev": prev, "acc": acc, "verr": kind, "via": via}
-            ctx.witness, ctx.obs = w, [r, d.previous_success_decoder]
+            w = {"sub": "lemma", "prev": prev, "acc": acc, "verr": kind, "empty": empty, "via": via}
+            ctx.witness = w
+            try:
+                r = run_entry(d, via, common, hdlc, dlde)
+            except ENGINE_EXC:
+                raise
+            except Exception as e:
+                ctx.obs = None
+                ctx.violation(f"{via}: {type(e).__name__} escapes AutoDecoder (prev={prev})", w)
+                return
+            ctx.obs = [r, d.previous_success_decoder]
             start = 0 if prev < 0 else prev
             order = [(start + i) % len(names) for i in range(len(names))]
             first = next((i for i in order if bool(acc[i])), None)
@@ -67,7 +82,7 @@ def lemma_path(via):
                 ok = r is None and d.previous_success_decoder == (None if prev < 0 else names[prev])
                 ctx.check(z3.BoolVal(ok), f"{via}: nobody accepts -> None and remembered decoder unchanged (prev={prev})", w)
             else:
-                ok = r == {"decoder": first} and d.previous_success_decoder == names[first]
+                ok = r is not None and r == result_of(first) and d.previous_success_decoder == names[first]
                 ctx.check(z3.BoolVal(ok), f"{via}: result of the first accepting decoder in cyclic order from the remembered one (prev={prev}, first={first}, got={r}, remembered={d.previous_success_decoder})", w)
         finally:
             AD.AutoDecoder.payload_decoder_functions = orig
